@@ -120,7 +120,7 @@ func c15(r *report.Run) {
 	// pointer members against literals; arithmetic over an interface{} member against literal ranges (struct variants only:
 	// a map environment types its members from the sample value)
 	rawSrcs = append(rawSrcs, "PI == 250", "250 == PI", "PI != 250", "PI in [250, 1]", `PS == "a"`, `PS != "a"`, `PS in ["a"]`, "PI == nil", "PI == PI",
-		"X + 1 + 2", "X + 1 + 2 == X + 3", "I64 in 250..250", "X in 250..250", "len(3..3)", "any(3..3, {# == 3})", "MI in 250..250", "(X + 1) in 1..300", "(X + 1) not in 1..300", "(I * X) in 1..300", "(X - 1) in [249, 1]", "-X in -300..0", "X + 1 == 251", "(B ? 1 : X) in 1..300", "X in 1..300")
+		`"hidden" in OV`, `"N" in OV`, `"zz" in OV`, `"hidden" not in OV`, `"Name" in OV and "hidden" in OV`, `"hidden" in O`, "X + 1 + 2", "X + 1 + 2 == X + 3", "I64 in 250..250", "X in 250..250", "len(3..3)", "any(3..3, {# == 3})", "MI in 250..250", "(X + 1) in 1..300", "(X + 1) not in 1..300", "(I * X) in 1..300", "(X - 1) in [249, 1]", "-X in -300..0", "X + 1 == 251", "(B ? 1 : X) in 1..300", "X in 1..300")
 	for _, inner := range []string{"count(A, {# > 0}) > 0", "all(A, {# > 0 - 9})", "any(A, {# > 0 - 9}) or true", "none(A, {# > 99})", "one(A, {# == 1}) or true", "len(filter(A, {# > 0})) >= 0", "len(map(A, {# + 1})) >= 0"} {
 		for _, outer := range []string{"filter(FA, {%s and # in 1..3})", "map(FA, {%s and # in [1, 2, 3]})", "count(FA, {%s and # == 2}) + 0", "all(SA, {%s and len(#) >= 0})", "filter(FA, {# in 1..3 and %s})"} {
 			rawSrcs = append(rawSrcs, fmt.Sprintf(outer, inner))
